@@ -668,3 +668,63 @@ REG.spec('agent/executing/popen.py:Popen._launch_task',
       ('a-late-cancel-is-acted-on-at-most-once', 'n_cancel <= old(n_cancel) + 1'),
     ],
     serves   = ['C07', 'C08'])
+
+
+# ------------------------------------------------------------------------------
+# side condition of the interference argument (A7): the token discipline above is
+# checked per operation; across threads it is sound only if "found in _tasks" and
+# "removed from _tasks" are one atomic step.  Read from the AST on every run: in the
+# functions that finish tasks, every removal from self._tasks sits inside a
+# `with self._check_lock:` block, and inside the same block it is preceded by the
+# membership test that lets a thread which does not find the uid leave.
+import ast as _ast
+from pyvc.frontend import FunctionSource as _FS
+
+
+def _is_tasks(e):
+    return isinstance(e, _ast.Attribute) and e.attr == '_tasks' and isinstance(e.value, _ast.Name) and e.value.id == 'self'
+
+
+def _removals(node):
+    out = []
+    for n in _ast.walk(node):
+        if isinstance(n, _ast.Delete):
+            for t in n.targets:
+                if isinstance(t, _ast.Subscript) and _is_tasks(t.value):
+                    out.append(n)
+        if isinstance(n, _ast.Call) and isinstance(n.func, _ast.Attribute) and n.func.attr in ('pop', 'popitem', 'clear') \
+           and _is_tasks(n.func.value):
+            out.append(n)
+    return out
+
+
+def _token_atomic():
+    out = []
+    for qn in ('Popen._check_running', 'Popen.cancel_task'):
+        f = _FS('agent/executing/popen.py', qn)
+        locked = [n for n in _ast.walk(f.node) if isinstance(n, _ast.With) and any(
+                  isinstance(i.context_expr, _ast.Attribute) and i.context_expr.attr == '_check_lock' for i in n.items)]
+        rem = _removals(f.node)
+        if not rem:
+            out.append(dict(name='%s:takes-the-task-out-of-the-registry' % qn, ok=False,
+                            note='no removal from self._tasks found: the function finishes tasks without taking ownership'))
+        for r in rem:
+            blocks = [w for w in locked if any(x is r for x in _ast.walk(w))]
+            inside = bool(blocks)
+            tested = False
+            for w in blocks:
+                for x in _ast.walk(w):
+                    if isinstance(x, _ast.If) and x.lineno <= r.lineno:
+                        for c in _ast.walk(x.test):
+                            if isinstance(c, _ast.Compare) and any(isinstance(o, (_ast.In, _ast.NotIn)) for o in c.ops) \
+                               and any(_is_tasks(k) for k in c.comparators):
+                                tested = True
+            out.append(dict(name='%s:L%d:found-and-removed-in-one-locked-step' % (qn, r.lineno), ok=(inside and tested), line=r.lineno,
+                            note='removal from self._tasks %s `with self._check_lock`, membership test in the same block: %s'
+                                 % ('inside' if inside else 'OUTSIDE', tested),
+                            witness=dict(function=qn, line=r.lineno, inside_lock=inside, tested_in_lock=tested, needs_schedule=True)))
+    return out
+
+
+REG.finite_check('C07.token-atomic', _token_atomic, ['C03', 'C05', 'C07', 'C08'],
+                 'agent/executing/popen.py:Popen._check_running / cancel_task')
